@@ -185,10 +185,29 @@ Fixpoint find_field {A B} (key : str) (f : A -> B) (fs : list (ident * A)) : opt
   | (k, a) :: r => if str_eqb key (iname k) then Some (f a) else find_field key f r
   end.
 
+(** str::parse::<i32>() on an integer lexeme: optional sign, one or more ASCII digits, value within i32 *)
+Fixpoint digits_value (acc : Z) (l : str) : option Z :=
+  match l with
+  | [] => Some acc
+  | c :: r => if (48 <=? c)%N && (c <=? 57)%N then digits_value (acc * 10 + Z.of_N (c - 48))%Z r else None
+  end.
+Definition parses_as_i32 (lexeme : str) : bool :=
+  match lexeme with
+  | [] => false
+  | c :: r =>
+      (* a sign is a sign only if something follows it *)
+      let signed := (N.eqb c 45 || N.eqb c 43) && negb (match r with [] => true | _ => false end) in
+      match digits_value 0 (if signed then r else lexeme) with
+      | Some z => let v := if N.eqb c 45 && signed then (- z)%Z else z in
+                  (-2147483648 <=? v)%Z && (v <=? 2147483647)%Z
+      | None => false
+      end
+  end.
+
 Definition builtin_scalar_ok (name : str) (v : value) : bool :=
   let is_null := match v with VNull _ => true | _ => false end in
   if str_eqb name (s "Boolean") then (match v with VBool _ _ => true | _ => is_null end)
-  else if str_eqb name (s "Int") then (match v with VInt _ _ => true | _ => is_null end)
+  else if str_eqb name (s "Int") then (match v with VInt _ x => parses_as_i32 x | _ => is_null end)
   else if str_eqb name (s "Float") then (match v with VFloat _ _ | VInt _ _ => true | _ => is_null end)
   else if str_eqb name (s "String") then (match v with VString _ _ => true | _ => is_null end)
   else if str_eqb name (s "ID") then (match v with VString _ _ | VInt _ _ => true | _ => is_null end)
@@ -437,7 +456,7 @@ Definition check_impl_field (doc : tsdoc) (iface_name : str) (field imp_field : 
     end) iargs ++
   flat_map (fun fa =>
     if forallb (fun ia => negb (str_eqb (iname (iv_name ia)) (iname (iv_name fa)))) iargs
-    then (if ty_is_nonnull (iv_type fa)
+    then (if iv_required fa
           then [err (ArgumentTypeNonNullAgainstInterface iface_name) (ipos (iv_name fa))] else [])
     else []) fargs ++
   (match is_subtype doc (fd_type field) (fd_type imp_field) with
